@@ -221,6 +221,9 @@ func hmacSection(x *h.X) {
 		if !bytes.Equal(k.OutputPrefix(), ref.Prefix(v, id)) {
 			x.Fail("prefix", "%s: OutputPrefix=%x want %x", cfg, k.OutputPrefix(), ref.Prefix(v, id))
 		}
+		if got, want := params.TotalTagSizeInBytes(), len(ref.Prefix(v, id))+tsize; got != want {
+			x.Fail("total-tag-size", "%s: Parameters.TotalTagSizeInBytes()=%d, a tag has %d bytes", cfg, got, want)
+		}
 		switch path {
 		case "hmac.NewMAC":
 			m, err = hmac.NewMAC(k, vb.Tok())
@@ -327,6 +330,9 @@ func cmacSection(x *h.X) {
 		}
 		if !bytes.Equal(k.OutputPrefix(), ref.Prefix(v, id)) {
 			x.Fail("prefix", "%s: OutputPrefix=%x want %x", cfg, k.OutputPrefix(), ref.Prefix(v, id))
+		}
+		if got, want := params.TotalTagSizeInBytes(), len(ref.Prefix(v, id))+tsize; got != want {
+			x.Fail("total-tag-size", "%s: Parameters.TotalTagSizeInBytes()=%d, a tag has %d bytes", cfg, got, want)
 		}
 		switch path {
 		case "aescmac.NewMAC":
